@@ -188,6 +188,8 @@ where
     /// and calling the `StateValidityChecker` on each intermediate state. If any intermediate
     /// state is invalid, the entire motion is considered invalid.
     fn check_motion(&self, from: &S, to: &S) -> bool {
+        #[cfg(feature = "verif")]
+        crate::verif::note_motion_check();
         // We need access to the space and checker from our stored setup info.
         if let (Some(pd), Some(vc)) = (&self.problem_def, &self.validity_checker) {
             let space = &pd.space;
